@@ -21,12 +21,83 @@ import (
 func init() {
 	engines["restart"] = engRestart
 	engines["crash"] = engCrash
+	engines["subinvalid_restart"] = engSubInvalidRestart
+}
+
+// hx subinvalid_restart (C30, restart clause): a persistent session of an MQTT 3.1 / 3.1.1 / 5 client
+// sends SUBSCRIBE packets mixing accepted filters with refused ones (invalid, not authorised), on every
+// storage back end; shutdown; what the store holds; restart on the same store.
+//   case: (backend events snapshot-at-shutdown stored-subscriptions snapshot-after-restart)
+func engSubInvalidRestart(seed int64, tier string, _ []string, out *sx.Out) {
+	env := newStoreEnv()
+	defer env.close()
+	rng := rand.New(rand.NewSource(seed))
+	bad := []string{"a/#/b", "a+", "a/b#", "#/a", "+a/b", "$share/+/a", "$share/g", "$share/g#/a", "$share//t", "", "deny/x", "deny/+/y", "$share/g/deny/x"}
+	good := []string{"ok/a", "ok:b/#", "+/c", "$share/g:1/ok/a", "ü/+"}
+	n := 2
+	if tier == "thorough" {
+		n = 12
+	}
+	for round := 0; round < n; round++ {
+		for _, ver := range []byte{3, 4, 5} {
+			for be := 0; be < beCount; be++ {
+				loc := env.fresh(be)
+				hook, cfg := env.hookConfig(loc)
+				b, err := newRsBroker(hook, cfg, -1)
+				if err != nil {
+					panic(err)
+				}
+				s := &rsScript{rng: rng, b: b}
+				c := s.conn(rsConnect{id: fmt.Sprintf("c:%d", ver), ver: ver, sei: 3600, seiFlag: true})
+				for i := 0; i < 4; i++ {
+					subs := packets.Subscriptions{}
+					for j := 0; j < 1+rng.Intn(4); j++ {
+						f := bad[(round*7+i*3+j+int(ver))%len(bad)]
+						if rng.Intn(3) == 0 {
+							f = good[rng.Intn(len(good))]
+						}
+						subs = append(subs, packets.Subscription{Filter: f, Qos: byte(rng.Intn(3))})
+					}
+					if c.finished() {
+						break
+					}
+					s.note("subscribe %v", subs)
+					s.b.send(c, packets.Packet{FixedHeader: packets.FixedHeader{Type: packets.Subscribe, Qos: 1}, PacketID: c.pid(), Filters: subs})
+				}
+				b.shutdown()
+				rsPlayed++
+				if b.raceHit {
+					skipHistory(out, "subinvalid_restart history abandoned")
+					env.discard(loc)
+					continue
+				}
+				snap1 := snapshot(b.srv)
+				evs, _ := b.rec.snapshotEvents()
+				h, err := env.open(loc)
+				if err != nil {
+					panic(err)
+				}
+				stored := sx.L{}
+				ss, _ := h.StoredSubscriptions()
+				for _, x := range ss {
+					stored = append(stored, sx.L{sx.S(x.Client), sx.S(x.Filter), sx.N(x.Qos)})
+				}
+				_ = h.Stop()
+				snap2 := restartOn(env, loc)
+				out.Comment(fmt.Sprintf("v%d backend %s: %s", ver, beNames[be], strings.Join(s.log, "; ")))
+				out.Case(sx.L{sx.N(be), evs, snap1, sortedL(stored), snap2})
+				env.discard(loc)
+			}
+		}
+	}
 }
 
 // client ids, filters and topics of the generated histories: separators of the storage keys
 // (':' '_' '/'), unicode, and the pairs ("a","b:c") / ("a:b","c") whose subscription keys collide
 var rsIDs = []string{"a", "a:b", "b", "a_b", "ü:é", "c/d:1", "SUB_a", "a:", "日本"}
 var rsFilters = []string{"c", "b:c", "a/+", "x:y/#", "a_b/c", "ü/+", "#", "$share/g:1/a/b", "a/b"}
+// filters the broker refuses: invalid (0x8F, 0x80 for MQTT 3) or not authorised (0x87 / 0x80)
+var rsRefused = []string{"a/#/b", "a+", "$share/+/a", "$share/g", "deny/x", "deny/#", "a/b#", "$share//t"}
 var rsTopics = []string{"c", "b:c", "a/b", "x:y/z", "a_b/c", "ü/é", "a/c"}
 
 type rsScript struct {
@@ -87,6 +158,9 @@ func (s *rsScript) opSubscribe(c *rsClient) {
 	pk := packets.Packet{FixedHeader: packets.FixedHeader{Type: packets.Subscribe, Qos: 1}, PacketID: c.pid()}
 	for i := 0; i < n; i++ {
 		f := rsFilters[r.Intn(len(rsFilters))]
+		if r.Intn(5) == 0 {
+			f = rsRefused[r.Intn(len(rsRefused))]
+		}
 		sub := packets.Subscription{Filter: f, Qos: byte(r.Intn(3))}
 		if c.ver == 5 {
 			sub.NoLocal = r.Intn(4) == 0 && !strings.HasPrefix(f, "$share")
@@ -351,6 +425,17 @@ var directed = []func(s *rsScript){
 	func(s *rsScript) {
 		c := s.conn(rsConnect{id: strings.Repeat("k", 32766), ver: 4})
 		s.sub(c, "a/b", 1)
+	},
+	// refused filters (invalid, not authorised) mixed with accepted ones, for MQTT 3.1, 3.1.1 and 5 sessions
+	func(s *rsScript) {
+		for i, ver := range []byte{3, 4, 5} {
+			c := s.conn(rsConnect{id: fmt.Sprintf("iv:%d", ver), ver: ver, sei: 3600, seiFlag: true})
+			subs := packets.Subscriptions{{Filter: "ok/a", Qos: 1}, {Filter: rsRefused[i], Qos: 1}, {Filter: "deny/x", Qos: 2},
+				{Filter: "$share/+/a", Qos: 0}, {Filter: "ok:b/#", Qos: 2}}
+			s.note("subscribe id=%q v%d %v", c.id, ver, subs)
+			s.b.send(c, packets.Packet{FixedHeader: packets.FixedHeader{Type: packets.Subscribe, Qos: 1}, PacketID: c.pid(), Filters: subs})
+			s.sub(c, "a/#/b", 1)
+		}
 	},
 	// faults: the broker's answer cannot be written (peer gone) when it answers a PUBREC with PUBREL ...
 	func(s *rsScript) {
